@@ -19,12 +19,18 @@ res = {}
 rc, out = sh('cargo test --workspace --no-fail-fast --offline 2>&1 | grep -E "^test result|FAILED|panicked" | head -40', cwd=wt)
 res['suite_with_change'] = out.strip().splitlines()
 # 2. demo with change
+sh('cargo clean -p ts-rs -p ts-rs-macros --offline', cwd=wt)
 rc1, out1 = sh(demo_cmd + ' 2>&1 | tail -15', cwd=wt)
 res['demo_with_change_tail'] = out1.strip().splitlines()[-8:]
 # 3. revert, demo without
+time.sleep(1.2)
 sh(f'git apply -R {patch}', cwd=wt)
+sh('find macros/src ts-rs/src -name "*.rs" -newer Cargo.toml -exec touch {} +', cwd=wt)
+time.sleep(1.2)
+sh('cargo clean -p ts-rs -p ts-rs-macros --offline', cwd=wt)
 rc2, out2 = sh(demo_cmd + ' 2>&1 | tail -15', cwd=wt)
 res['demo_without_change_tail'] = out2.strip().splitlines()[-8:]
+time.sleep(1.2)
 sh(f'git apply {patch}', cwd=wt)
 # 4. our checks against it
 rc, out = sh(f'git -C /repo apply {patch}')
